@@ -87,16 +87,30 @@ C10_MissingReported(clean, staged, disk0, store0, chg, missing) ==
   /\ missing => absent # {}
   /\ (clean /\ staged /\ AllApplicable(disk0, chg) /\ absent # {}) => missing
 
+\* the staging file size limit: nothing larger is ever committed (real store
+\* listings carry the byte size sz of every staged file) ...
+C10_StagedWithinSizeLimit(store, maxfile) == \A x \in store : "sz" \in DOMAIN x => x.sz <= maxfile
+\* ... and a complete, unmodified transfer of a file that fits is staged under
+\* its planned digest (no spurious "missing files"). plan: what was sent per
+\* pending file [path, d, kind, sz]; undisturbed: the store is initialized, the
+\* stream ended without error and no external edit touched the bases since Stage.
+C10_FittingTransferStaged(undisturbed, maxfile, plan, store1) ==
+  undisturbed => \A j \in DOMAIN plan :
+     (plan[j].kind \in {"exact", "split"} /\ plan[j].sz <= maxfile) => GoodSlot(store1, plan[j].path, plan[j].d)
+
 (***************************************************************************)
 (* Part 2. Call-protocol state of one endpoint and its update per call      *)
-(*   m = [ro, max, sSt, sTr, count, cache, dirty, init]                     *)
+(*   m = [ro, max, maxfile, sSt, sTr, count, cache, dirty, sdirty, init]    *)
 (*   sSt / sTr   scannedSinceLastStageCall / ...TransitionCall              *)
 (*   count       lastScanEntryCount        cache   what the last scan saw   *)
 (*   dirty       an external edit happened since the last accepted scan     *)
+(*   sdirty      an external edit happened since the last accepted Stage    *)
+(*               (the base files its signatures describe may have changed)  *)
+(*   maxfile     maximum staging file size (Store.maximumFileSize)          *)
 (*   init        the staging store is initialized: a Stage call got as far  *)
 (*               as stager.Initialize and no transition has finalized it    *)
 (***************************************************************************)
-NewProto(ro, max) == [ro |-> ro, max |-> max, sSt |-> FALSE, sTr |-> FALSE, count |-> 0, cache |-> Nil, dirty |-> FALSE, init |-> FALSE]
+NewProto(ro, max, maxfile) == [ro |-> ro, max |-> max, maxfile |-> maxfile, sSt |-> FALSE, sTr |-> FALSE, count |-> 0, cache |-> Nil, dirty |-> FALSE, sdirty |-> FALSE, init |-> FALSE]
 
 ScanOver(m, disk) == Count(disk) > m.max
 \* endpoint.scan stores cache and count before Scan compares with the maximum
@@ -109,7 +123,8 @@ OverStage(m, n) == m.count + n > m.max
 StageRefused(m, n) == m.ro \/ (n > 0 /\ (~m.sSt \/ OverStage(m, n)))
 \* the flag is consumed as soon as the no-scan test has been passed
 StageUpd(m, n) == IF m.ro \/ n = 0 \/ ~m.sSt THEN m
-                  ELSE [m EXCEPT !.sSt = FALSE, !.init = IF OverStage(m, n) THEN @ ELSE TRUE]
+                  ELSE [m EXCEPT !.sSt = FALSE, !.init = IF OverStage(m, n) THEN @ ELSE TRUE,
+                                 !.sdirty = IF OverStage(m, n) THEN @ ELSE FALSE]
 
 \* Transition: resulting entry count, "NEG" if a removal exceeds what exists
 RECURSIVE Resulting(_, _)
@@ -124,7 +139,7 @@ OverTrans(m, chg) == ~Negative(m, chg) /\ m.max < Resulting(m.count, chg)
 TransUpd(m, chg) == IF m.ro \/ ~m.sTr THEN m
                     ELSE [m EXCEPT !.sTr = FALSE, !.init = IF Negative(m, chg) \/ OverTrans(m, chg) THEN @ ELSE FALSE]
 
-ExtUpd(m) == [m EXCEPT !.dirty = TRUE]
+ExtUpd(m) == [m EXCEPT !.dirty = TRUE, !.sdirty = TRUE]
 
 (***************************************************************************)
 (* Part 1c. C41 - staging requests only what is missing, limits, ordering   *)
@@ -133,6 +148,11 @@ C41_ScanLimit(m, disk0, err) == (err # "") <=> ScanOver(m, disk0)
 C41_StageRefusal(m, req, err) == (err # "") <=> StageRefused(m, Len(req))
 C41_TransRefusal(m, chg, err) == (err # "") <=> TransRefused(m, chg)
 
+\* does content of this request fit into one staging file? (real records carry the
+\* byte size sz of the planned content; the model measures in write units)
+SizeOfReq(r) == IF "sz" \in DOMAIN r THEN r.sz
+                ELSE CASE r.d = "c1" -> 2 [] r.d = "c2" -> 3 [] r.d = "empty" -> 0 [] OTHER -> 1
+Fits(m, r) == SizeOfReq(r) <= m.maxfile
 \* returned paths: in request order, no inventions, no duplicates
 C41_StageSubseq(req, ret) == IsSubseq(ret, ReqPaths(req)) /\ NoDup(ret)
 
@@ -141,15 +161,19 @@ C41_StageSubseq(req, ret) == IsSubseq(ret, ReqPaths(req)) /\ NoDup(ret)
 C41_OmittedAvailable(disk0, store0, req, ret, store1) ==
   \A i \in DOMAIN req : (\A j \in DOMAIN ret : ret[j] # req[i].path) =>
      /\ GoodSlot(store1, req[i].path, req[i].d)
-     /\ (HasSlot(store0, req[i].path, req[i].d) \/ \E q \in FilePaths(disk0) : At(disk0, q).d = req[i].d)
+     /\ \/ HasSlot(store0, req[i].path, req[i].d)
+        \/ \E q \in FilePaths(disk0) : At(disk0, q).d = req[i].d
+        \/ SizeOfReq(req[i]) = 0     \* empty content needs no data: a from-root copy cut off by the
+                                     \* size limit at its first write leaves exactly the empty file
 
 \* a request is kept only if it still needs data: not already staged, and not
-\* (every file the last scan saw with that digest is still intact)
+\* (every file the last scan saw with that digest is still intact and small
+\* enough to be copied into the store)
 C41_RequestedNeeded(m, disk0, store0, req, ret) ==
   \A i \in DOMAIN req : (\E j \in DOMAIN ret : ret[j] = req[i].path) =>
      /\ ~GoodSlot(store0, req[i].path, req[i].d)
      /\ LET cand == {q \in FilePaths(m.cache) : At(m.cache, q).d = req[i].d}
-        IN ~(cand # {} /\ \A q \in cand : IsFileWith(disk0, q, req[i].d))
+        IN ~(cand # {} /\ Fits(m, req[i]) /\ \A q \in cand : IsFileWith(disk0, q, req[i].d))
 
 \* the controller's own check of Stage's answer (safety.go filteredPathsAreSubset)
 \* accepts exactly the in-order subsequences
@@ -180,13 +204,36 @@ C41_ReadOnlyRefuses(m, err, disk0, disk1, store0, store1) ==
 (*   "none"            the code as it is                                    *)
 (*   "name_by_expected" Commit names the slot by the digest that was asked  *)
 (*   "no_reverify"     stageFromRoot trusts the reverse lookup              *)
+(*   "hash_before_limit" Storage.Write feeds the hasher before the size     *)
+(*                     check: a rejected write is hashed but not written    *)
 (***************************************************************************)
 CONSTANT WhatIf
 
-SlotOf(p, cd, expected) == [p |-> p, nd |-> IF WhatIf = "name_by_expected" THEN expected ELSE cd, cd |-> cd]
-\* Storage.Commit: rename onto the target name, replacing a previous file of that name
-PutSlot(store, p, cd, expected) ==
-  LET x == SlotOf(p, cd, expected) IN {y \in store : ~(y.p = p /\ y.nd = x.nd)} \cup {x}
+\* Storage.Commit: rename onto the target name (digest of the HASHER + path hash),
+\* replacing a previous file of that name. nd = what the hasher saw, cd = what is in the file.
+SlotOf(p, nd, cd, expected) == [p |-> p, nd |-> IF WhatIf = "name_by_expected" THEN expected ELSE nd, cd |-> cd]
+PutSlot(store, p, nd, cd, expected) ==
+  LET x == SlotOf(p, nd, cd, expected) IN {y \in store : ~(y.p = p /\ y.nd = x.nd)} \cup {x}
+
+\* Sizes. Contents are measured in write units (one rsync operation = one unit;
+\* the from-root copy writes a whole small file in one io.Copy chunk).
+UnitsOf(d) == SizeOfReq([d |-> d])
+TruncName(k) == CASE k = 0 -> "empty" [] k = 1 -> "trunc1" [] k = 2 -> "trunc2" [] OTHER -> "truncN"
+Prefix(w, n, k) == IF k >= n THEN w ELSE TruncName(k)      \* digest of the first k of the n units of content w
+\* Storage.Write, one call per unit: size check ((max - current) < len => error, nothing
+\* written), buffered write, and - through the hashed writer underneath - hashing of the
+\* accepted bytes only. The first rejected write ends the file (Patch fails, the sink is
+\* closed = committed, the rest of the stream is burnt).
+\*   outcome: "fits" | "limit_last" (the crossing write is the file's last) | "limit_earlier"
+StoreUnits(w, n, lim) ==
+  IF n <= lim THEN [nd |-> w, cd |-> w, outcome |-> "fits"]
+  ELSE [cd |-> Prefix(w, n, lim),
+        nd |-> IF WhatIf = "hash_before_limit" THEN Prefix(w, n, lim + 1) ELSE Prefix(w, n, lim),
+        outcome |-> IF lim + 1 = n THEN "limit_last" ELSE "limit_earlier"]
+\* stageFromRoot's io.Copy hands the whole (small) file to ONE Write call
+StoreWhole(w, n, lim) ==
+  IF n <= lim THEN [nd |-> w, cd |-> w, outcome |-> "fits"]
+  ELSE [cd |-> "empty", nd |-> IF WhatIf = "hash_before_limit" THEN w ELSE "empty", outcome |-> "limit_last"]
 
 \* Cache.GenerateReverseLookupMap keeps ONE path per digest (map order): any of them
 Candidates(m, d) == {q \in FilePaths(m.cache) : At(m.cache, q).d = d}
@@ -203,7 +250,8 @@ StageWalk(m, root, req, store, ret) ==
     ELSE UNION {
            LET src == At(root, q) IN
            IF src.k # "file" THEN StageWalk(m, root, rest, store, Append(ret, r.path))   \* opener.OpenFile fails
-           ELSE LET st2 == PutSlot(store, r.path, src.d, r.d) IN                         \* io.Copy + sink.Close
+           ELSE LET w == StoreWhole(src.d, UnitsOf(src.d), m.maxfile)
+                    st2 == PutSlot(store, r.path, w.nd, w.cd, r.d) IN                     \* io.Copy + sink.Close
                 IF WhatIf = "no_reverify" \/ HasSlot(st2, r.path, r.d)                   \* final stager.Contains
                 THEN StageWalk(m, root, rest, st2, ret)
                 ELSE StageWalk(m, root, rest, st2, Append(ret, r.path))
@@ -218,13 +266,16 @@ Written(kind, d) ==
     [] kind = "absent" -> "empty"       \* Done without operations: an empty sink is committed
     [] kind = "abort" -> "trunc"        \* finalize() closes the open sink: the partial file is committed
     [] OTHER -> "none"
-RECURSIVE RecvWalk(_, _, _)
-RecvWalk(pending, kinds, store) ==
+\* size of what the transfer tries to write: exact and corrupt carry the planned size
+TriedUnits(kind, d) == IF kind \in {"exact", "corrupt"} THEN UnitsOf(d) ELSE UnitsOf(Written(kind, d))
+RECURSIVE RecvWalk(_, _, _, _)
+RecvWalk(pending, kinds, store, lim) ==
   IF pending = <<>> THEN store
   ELSE LET p == Head(pending)  k == Head(kinds) IN
        IF k = "abort0" THEN store
-       ELSE LET st2 == PutSlot(store, p.path, Written(k, p.d), p.d) IN
-            IF k = "abort" THEN st2 ELSE RecvWalk(Tail(pending), Tail(kinds), st2)
+       ELSE LET w == StoreUnits(Written(k, p.d), TriedUnits(k, p.d), lim)
+                st2 == PutSlot(store, p.path, w.nd, w.cd, p.d) IN
+            IF k = "abort" THEN st2 ELSE RecvWalk(Tail(pending), Tail(kinds), st2, lim)
 
 \* core.Transition restricted to file changes directly below the root
 \* acc = [root, store, results, nprob, missing, init]
